@@ -3,10 +3,11 @@
 Require Extraction.
 Require Import ExtrOcamlBasic.
 Require Import ZArith NArith.
-From RH Require Kernel.Conc.
+From RH Require Kernel.Conc Symtab.Symtab.
 Set Extraction Optimize.
 Separate Extraction
   BinInt.Z.add BinNat.N.add   (* the shared ocaml/util.ml refers to BinNums *)
   Kernel.Conc.succs Kernel.Conc.final Kernel.Conc.stuck Kernel.Conc.init Kernel.Conc.init_todo
   Kernel.Conc.run_first Kernel.Conc.locks Kernel.Conc.self_blocked Kernel.Conc.wf_depsb
-  Kernel.Conc.measure Kernel.Conc.state_eqb.
+  Kernel.Conc.measure Kernel.Conc.state_eqb
+  Symtab.Symtab.classes Symtab.Symtab.insert_new Symtab.Symtab.insert_new_nocheck.
